@@ -148,3 +148,65 @@ package middleware
 //@   assert at return: l != nil && old(l.rootState.v) <= 1 && old(l.policy.Mode) == RecursionWorkShadow ==> result == nil
 //@   assert at return: l != nil && old(l.rootState.v) <= 1 && old(l.policy.Mode) == RecursionWorkEnforce && (kind == RecursionWorkDNSKEYCandidate ==> used < old(l.policy.MaxDNSKEYCandidates)) && (kind == RecursionWorkRRsetSignature ==> used < old(l.policy.MaxRRsetSignatureChecks)) && (kind == RecursionWorkConcurrentCrypto ==> used < old(l.policy.MaxConcurrentCrypto)) ==> result == nil
 //@   assert at return#5: old(l.policy.Mode) == RecursionWorkEnforce && used >= limit && result != nil
+//@
+//@ # ---- C11 / C10: at most one reply per request. A writer that has been written refuses every further write without
+//@ # touching the transport; a first write marks the writer written no later than the transport call (so an erroring
+//@ # transport cannot be retried); release drops references only and does not reopen the writer
+//@ func (*responseWriter).Written
+//@   requires w != nil
+//@   modifies nothing
+//@   ensures result == (w.size != -1)
+//@
+//@ func (*responseWriter).WriteMsg
+//@   abstract
+//@   nosafety all pre
+//@   assert at return#1: old(entry_w.size) != -1 && result != nil && calls("(middleware.Transport).WriteMsg") == 0 && calls("internal/wire.TryPack") == 0
+//@   assert at call internal/wire.TryPack#1: old(entry_w.size) == -1 && arg0 == m
+//@   assert at call (middleware.Transport).WriteMsg#1: old(entry_w.size) == -1 && w.size != -1 && w.msg == m && arg1 == m
+//@   assert at return: calls("(middleware.Transport).WriteMsg") <= 1
+//@
+//@ func (*responseWriter).WriteMsg$1
+//@   abstract
+//@   nosafety all pre
+//@   assert at call (middleware.Transport).Write#1: w.size == len(body) && w.size != -1 && w.msg == m && arg1 == body
+//@
+//@ func (*responseWriter).Write
+//@   abstract
+//@   nosafety all pre
+//@   assert at return#1: old(w.size) != -1 && result1 != nil && result0 == 0 && calls("(middleware.Transport).Write") == 0
+//@   assert at call (middleware.Transport).Write#1: old(w.size) == -1 && arg1 == m
+//@   assert at return#3: calls("(middleware.Transport).Write") == 1 && w.size == len(m) && w.size != -1
+//@
+//@ func (*responseWriter).WriteWire
+//@   abstract
+//@   nosafety all pre
+//@   assert at return#1: old(w.size) != -1 && result != nil && calls("(middleware.Transport).Write") == 0
+//@   assert at call (middleware.Transport).Write#1: old(w.size) == -1 && arg1 == body
+//@   assert at return#2: calls("(middleware.Transport).Write") == 1 && w.size != -1
+//@
+//@ func (*responseWriter).BeginWire
+//@   abstract
+//@   nosafety all pre
+//@   assert at return#1: old(w.size) != -1 && len(result) == 0 && cap(result) == 0
+//@   assert at return#3: len(result) == 0 && cap(result) == need
+//@   assert at return#4: len(result) == 0 && cap(result) == need
+//@
+//@ func (*responseWriter).release
+//@   requires w != nil
+//@   modifies w.msg, w.wire
+//@   ensures w.msg == nil && len(w.wire) == 0
+//@
+//@ # ---- C10: a chain is rebound per request: its base writer is reset onto the NEW transport (unwritten, no retained
+//@ # message or wire), its position and flags restart, and it serves the new request object
+//@ func (*Chain).ResetWire
+//@   abstract
+//@   nosafety all pre
+//@   assert at call (*middleware.Chain).rebindWriter#1: arg1 == w
+//@   assert at return: ch.Request == r && ch.pos == 0 && ch.count == len(ch.handlers) && !ch.inlineOnly && !ch.handoff && !ch.replay && calls("(*middleware.Chain).rebindWriter") == 1 && calls("(*middleware.ResponseMeta).Reset") == 1
+//@
+//@ # after a request is finished the chain holds none of its response: request and base writer are released
+//@ func (*Chain).Finish
+//@   abstract
+//@   nosafety all pre
+//@   assert at return: calls("(*middleware.ResponseMeta).Reset") == 1
+//@   assert at call (*middleware.responseWriter).release#1: dyntype(ch.Writer, *responseWriter) && arg0 == as(ch.Writer, *responseWriter)
